@@ -33,4 +33,13 @@ ReadsBack == ReadLocale(Url, base, ls.names) = (IF cur = ls.default THEN None EL
 RoundTrip == [][\A b \in DOMAIN ls.names : Switch(b) => Localize(table, rest', b, cur) = rest]_vars
 \* a switch keeps the number of segments and every segment that is not a localized one
 KeepsShape == [][Len(rest') = Len(rest)]_vars
+
+\* ---- the route families see the URL the same way --------------------------------------------------------
+MatchAt(c, r) == MatchUrl(Prefix(c, ls.names, ls.default) \o r, ls.names, ls.order, ls.default, table)
+\* the URL of the current locale is matched by that locale's family (the prefix-less one for the default locale)
+MatchedAsCurrent == Matches(table, rest, cur) =>
+    LET m == MatchAt(cur, rest) IN m.matched /\ m.loc = (IF cur = ls.default THEN None ELSE cur) /\ m.route = RouteOf(table, rest, cur)
+\* a switch keeps the route and every parameter binding
+RouteStable == [][\A b \in DOMAIN ls.names : (Switch(b) /\ Matches(table, rest, cur)) =>
+                     LET m == MatchAt(cur, rest)  m2 == MatchAt(cur', rest') IN m2.matched /\ m2.route = m.route /\ m2.b = m.b]_vars
 =============================================================================
